@@ -3,8 +3,17 @@ import Dnp3.Proofs.OutstationC05
 /-!
 # C05 — A retransmitted request is answered from memory and never executed twice
 
-Restated verbatim from `Dnp3.Proofs.OutstationC05` (`IsRepeat`, `isExec`, `rxAccept` live there).
-Known finding kept as exact characterisation: D14 (the idle-path echo re-ORs the current IIN).
+Restated verbatim from `Dnp3.Proofs.OutstationC05` (`IsRepeat`, `isExec`, `rxAccept`, `rebased` live there).
+Defect D14 (the idle-path echo of a repeated non-READ request re-ORed the CURRENT IIN, and possibly the CON bit,
+into the stored header) is repaired: the stored response goes out verbatim through `repeatSolicited`, as in the
+unsolicited confirm wait.  Full C05.2 for the idle path: `repeat_nonread_idle` (exact new state and outputs: no
+IIN evaluation, `lastReq` / `lastBroadcast` / `restart` / `db` untouched, nothing executed, the stored confirm
+wait is returned) and `repeat_nonread_same_bytes_idle` (byte-for-byte the original octets provided the solicited
+buffer was not overwritten since — same proviso as `repeat_nonread_same_bytes_unsolwait`); the former D14 run is
+kept as the regression example `repeat_nonread_idle_verbatim_example` (same octets in steps 0 and 2).
+Known finding D31 (residue of D14, outside `IsRepeat`): a repeated request whose OBJECTS do not parse is classified
+`.malformed` before the duplicate check and answered afresh with the current IIN
+(`repeat_malformed_not_classified`, `repeat_malformed_reanswered_counterexample`).
 Defect D5 (echo of a READ repeated during the confirm wait of a later fragment spliced two fragments) is
 repaired: the continuation fragment becomes the stored response (`continuation_is_stored`), so the full
 C05.4 holds (`resend_is_stored_fragment`, `resend_is_awaited_fragment`).
@@ -75,27 +84,72 @@ theorem repeat_nonread_same_bytes_unsolwait {a : Acc} {f : Frag} {ctrl : AppCtrl
         (accOf (unsolWaitOnFragment a resp isNull)).2 = a.2 ++ [.tx f.src bytes] :=
   @Dnp3.Proofs.C05.repeat_nonread_same_bytes_unsolwait a f ctrl func objects raw last resp isNull r b0 a00 dst0 hp hq hm hr hresp horig hbuf
 
-/-- **C05.2 (`repeat_nonread_idle_reors_iin`, finding D14)**: in the idle path the reply to a retransmitted
-    non-READ request is NOT the stored response verbatim: `writeSolicited` ORs the CURRENT IIN (and possibly
-    the CON bit after a confirm-required broadcast) into the stored header before re-sending it.
-    Exact relation: new iin1 = stored iin1 ||| current iin1, new iin2 = stored iin2 ||| current iin2. -/
-theorem repeat_nonread_idle_reors_iin {a : Acc} {f : Frag} {ctrl : AppCtrl} {func : Nat}
-    {objects : Except Nat (List ObjHdr)} {raw : List Nat} {last : LastReq} {r : Resp}
-    {s' : OState} {i1 i2 : Nat}
-    (hr : IsRepeat a.1 f ctrl func objects last) (hresp : last.response = some r)
-    (hg : getResponseIin (rebased a.1 f) = some (s', i1, i2)) :
-    let r1 : Resp := { r with iin1 := r.iin1 ||| i1, iin2 := r.iin2 ||| i2 }
-    let r2 : Resp := if s'.lastBroadcast = some 1 then { r1 with ctrl := { r1.ctrl with con := true } } else r1
-    ∃ a' sr, handleRequestFromIdle a f ctrl func objects raw = some (a', sr) ∧
-      a'.2 = a.2 ++ [.tx f.src ((writeAt a.1.solBuf 0 (respHeader r2)).take (max 4 r2.size))] ∧
-      a'.1.lastReq = some ⟨ctrl.seq, f.data, some r2, sr⟩ :=
-  @Dnp3.Proofs.C05.repeat_nonread_idle_reors_iin a f ctrl func objects raw last r s' i1 i2 hr hresp hg
+/-- **C05.2 (`repeat_nonread_idle`, idle path; defect D14 is repaired)**: a retransmitted non-READ request handled
+    from idle is answered by `repeatSolicited` of the STORED response — the stored header written over the current
+    solicited buffer, cut to the stored size; nothing if no response was stored — and NOT through
+    `writeSolicited`: no IIN is evaluated (so `lastBroadcast`, `restart`, `db` are untouched and no current IIN
+    bit or CON bit is OR-ed in), the record of the request (`lastReq`: sequence number, octets, response, and
+    the confirm wait its response opened, which is returned as the series to wait on) stays exactly as it is,
+    and nothing is executed.  The state afterwards is `rebased …` (only a retransmission of the stored SELECT
+    moves that select's frame id, see `Dnp3.Proofs.C04.step_select_change`) with the header written into
+    `solBuf`. -/
+theorem repeat_nonread_idle {a : Acc} {f : Frag} {ctrl : AppCtrl} {func : Nat}
+    {objects : Except Nat (List ObjHdr)} {raw : List Nat} {last : LastReq}
+    (hr : IsRepeat a.1 f ctrl func objects last) :
+    ∃ a', handleRequestFromIdle a f ctrl func objects raw = some (a', last.series) ∧
+      a'.2 = a.2 ++ (match last.response with
+        | some r => [.tx f.src ((writeAt a.1.solBuf 0 (respHeader r)).take (max 4 r.size))]
+        | none => []) ∧
+      a'.1 = { rebased a.1 f ctrl func raw with
+                solBuf := match last.response with
+                  | some r => writeAt a.1.solBuf 0 (respHeader r)
+                  | none => a.1.solBuf } ∧
+      a'.1.lastReq = a.1.lastReq ∧ a'.1.lastBroadcast = a.1.lastBroadcast ∧ a'.1.restart = a.1.restart ∧
+      a'.1.db = a.1.db ∧ a'.1.deferred = a.1.deferred ∧ a'.1.mode = a.1.mode ∧
+      ∀ o ∈ a'.2, o ∈ a.2 ∨ isExec o = false :=
+  @Dnp3.Proofs.C05.repeat_nonread_idle a f ctrl func objects raw last hr
 
-theorem repeat_nonread_idle_reors_iin_counterexample :
+/-- **C05.2 (`repeat_nonread_same_bytes_idle`)**: PROVIDED the solicited buffer still is what the original
+    transmission left (`solBuf = writeAt b0 0 (respHeader r)`, `b0` the buffer the response `r` was originally sent
+    from by `repeatSolicited`/`writeSolicited`), the octets re-sent from idle are byte-for-byte the octets sent
+    originally; the buffer and the stored request are left as they were, so the statement applies again to a
+    further repeat. -/
+theorem repeat_nonread_same_bytes_idle {a : Acc} {f : Frag} {ctrl : AppCtrl} {func : Nat}
+    {objects : Except Nat (List ObjHdr)} {raw : List Nat} {last : LastReq} (r : Resp)
+    (b0 : List Nat) (a00 : Acc) (dst0 : Nat)
+    (hr : IsRepeat a.1 f ctrl func objects last) (hresp : last.response = some r)
+    (horig : a00.1.solBuf = b0)                                
+    (hbuf : a.1.solBuf = (repeatSolicited a00 dst0 r).1.solBuf) : ∃ bytes a', (repeatSolicited a00 dst0 r).2 = a00.2 ++ [.tx dst0 bytes] ∧
+        handleRequestFromIdle a f ctrl func objects raw = some (a', last.series) ∧
+        a'.2 = a.2 ++ [.tx f.src bytes] ∧ a'.1.solBuf = a.1.solBuf ∧ a'.1.lastReq = a.1.lastReq :=
+  @Dnp3.Proofs.C05.repeat_nonread_same_bytes_idle a f ctrl func objects raw last r b0 a00 dst0 hr hresp horig hbuf
+
+/-- **D14 regression** (this EVALUATES the model including the current `Db` component): the repeat is answered
+    with the SAME octets as the original request (IIN1 = 0x80 both times; before the repair the broadcast bit
+    IIN1.0 was OR-ed into the repeated response, 0x81), and nothing is executed. -/
+theorem repeat_nonread_idle_verbatim_example :
     (Outstation.run {} (Outstation.start {} 10).1 d14Inputs).2.map txFrags =
-      [[(1, [192, 129, 128, 0, 52, 2, 7, 1, 0, 0])], [], [(1, [192, 129, 129, 0, 52, 2, 7, 1, 0, 0])]] ∧
+      [[(1, [192, 129, 128, 0, 52, 2, 7, 1, 0, 0])], [], [(1, [192, 129, 128, 0, 52, 2, 7, 1, 0, 0])]] ∧
     (Outstation.run {} (Outstation.start {} 10).1 d14Inputs).2.map (fun l => (l.filter isExec).length) = [0, 0, 0] :=
-  @Dnp3.Proofs.C05.repeat_nonread_idle_reors_iin_counterexample 
+  @Dnp3.Proofs.C05.repeat_nonread_idle_verbatim_example
+
+/-- **`repeat_malformed_reanswered_counterexample` (finding D31)**: the C05.2 statements above are about repeats
+    whose objects parse (`IsRepeat.objectsOk`).  A byte-identical repeat of a request whose OBJECTS do not parse is
+    classified `.malformed` before the duplicate check (`repeat_malformed_not_classified`), so it is answered
+    afresh: the second reply carries the CURRENT IIN1 (0x81: the broadcast bit) where the original carried 0x80.
+    Nothing is executed either time. -/
+theorem repeat_malformed_reanswered_counterexample :
+    (Outstation.run {} (Outstation.start {} 10).1 d27Inputs).2.map txFrags =
+      [[(1, [192, 129, 128, 4])], [], [(1, [192, 129, 129, 4])]] ∧
+    (Outstation.run {} (Outstation.start {} 10).1 d27Inputs).2.map (fun l => (l.filter isExec).length) = [0, 0, 0] :=
+  @Dnp3.Proofs.C05.repeat_malformed_reanswered_counterexample
+
+/-- exact characterisation of finding D31: whatever the last recorded request is, a unicast non-CONFIRM fragment
+    whose objects do not parse is classified `.malformed` — never as a repeat -/
+theorem repeat_malformed_not_classified (s : OState) (f : Frag) (ctrl : AppCtrl) (func : Nat) (e : Nat)
+    (hf : func ≠ 0) (hb : f.broadcast = none) :
+    classify s f ctrl func (.error e) = .malformed e :=
+  @Dnp3.Proofs.C05.repeat_malformed_not_classified s f ctrl func e hf hb
 
 /-- **C05.3 (`unsol_retry_identical`)**: a retry after the unsolicited confirm timeout transmits the stored
     header over the current unsolicited buffer; PROVIDED `unsolBuf` still is what the original
